@@ -67,7 +67,7 @@ pub fn run_one(
                 adm_share,
                 mempool: Vec::new(),
             };
-            if profile.name == "ADM" && ctx.rng.chance(1, 3) {
+            if (profile.name == "ADM" && ctx.rng.chance(1, 3)) || (profile.name == "MKT" && ctx.rng.chance(1, 10)) {
                 crate::actors_adm::drill_kill_bank(&mut sim, &mut ctx);
             }
             let integ = if profile.name == "INTEG" { crate::actors_integ::setup(&mut sim, &mut ctx) } else { None };
